@@ -7,6 +7,9 @@ SM = "pyhms.sprout.sprout_mechanisms.SproutMechanism."
 
 ghost_fields(**{"$last_seeds": "dict[ref:AbstractDeme,ref:DemeCandidates]"})
 macro("last_seeds", ["t"], 'field(t, "$last_seeds", "dict[ref:AbstractDeme,ref:DemeCandidates]")')
+# positions of the iterated sequence that the loop has already handled / still has to handle, whatever the direction
+macro("Done", ["rev", "n", "j", "q"], "ite(rev, n - j <= q and q < n, 0 <= q and q < j)")
+macro("Todo", ["rev", "n", "j", "q"], "ite(rev, 0 <= q and q < n - j, j <= q and q < n)")
 macro("hibernation_on", ["t"], "'hibernation' in t.config.options and t.config.options['hibernation']")
 macro("ActiveNonLeaf", ["t", "d"], "InTree(t, d) and d._active and d._level < len(t._levels) - 1")
 
@@ -19,7 +22,7 @@ SEEDS_POST = [
 ]
 fn(SM + "get_seeds", params={"tree": "ref:DemeTree"}, returns="dict[ref:AbstractDeme,ref:DemeCandidates]",
    requires=[cl("s_" + c.label, c.text.replace("self", "tree")) for c in struct("self")] + [cl("problems", "LevelProblemsWf(tree)")],
-   modifies=[("_centroid", "True"), ("$list", "kind(o) == 7"), ("weights", "False")],
+   modifies=[("_centroid", "True"), ("$list<dict[str,ref:DemeCandidates]>", "kind(o) == 7")],
    ensures=SEEDS_POST + [cl("t_" + c.label, c.text.replace("self", "tree")) for c in struct("self")],
    trusted=True, note="interface contract of the sprouting mechanism towards the tree; get_seeds itself is verified in e-files")
 
@@ -29,13 +32,14 @@ fn(T + "run_sprout",
    ghost_after={"get_seeds@0": ["setg(self, '$last_seeds', _call_result)"]},
    requires=struct("self") + [cl("problems", "LevelProblemsWf(self)"),
                               cl("mechanism", "self._sprout_mechanism != None")],
-   modifies=TREE_LISTS + USER_PROBLEM_FRAME + HIB_FRAME + [("_centroid", "True"), ("$list", "kind(o) == 7")],
+   modifies=TREE_LISTS + USER_PROBLEM_FRAME + HIB_FRAME + [("_centroid", "True"), ("$list<dict[str,ref:DemeCandidates]>", "kind(o) == 7")],
    loops={0: dict(index="j", seq_base="anl", modifies=HIB_FRAME, invariant=[
-       cl("inv_processed", "forall(lambda q: imp(len(anl) - j <= q and q < len(anl), "
+       cl("inv_processed", "forall(lambda q: imp(Done(iter_reversed, len(anl), j, q), "
           "anl[q][1]._hibernating == (not (anl[q][1] in deme_seeds))))"),
        cl("inv_seeds", "deme_seeds == last_seeds(self)"),
        cl("inv_awake_new", "forall(lambda l, i: imp(0 <= l < len(self._levels) and old(len(self._levels[l])) <= i and i < len(self._levels[l]), "
-          "not self._levels[l][i]._hibernating and self._levels[l][i]._active), pat=self._levels[l][i])")] + struct("self", prefix="inv_") + PREFIX)},
+          "not self._levels[l][i]._hibernating and self._levels[l][i]._active and len(self._levels[l][i]._history) == 1), "
+          "pat=self._levels[l][i])")] + struct("self", prefix="inv_") + PREFIX)},
    ensures=struct("self") + PREFIX + [
        cl("created_demes_awake",
           "forall(lambda l, i: imp(0 <= l < len(self._levels) and old(len(self._levels[l])) <= i and i < len(self._levels[l]), "
@@ -44,6 +48,143 @@ fn(T + "run_sprout",
           "imp(hibernation_on(self), forall(lambda l, i: imp(0 <= l and l < len(self._levels) - 1 and 0 <= i < old(len(self._levels[l])) "
           "and old(self._levels[l][i]._active), "
           "self._levels[l][i]._hibernating == (not (self._levels[l][i] in last_seeds(self)))), pat=self._levels[l][i]))", tags="C18"),
+       cl("created_demes_unrun",
+          "forall(lambda l, i: imp(0 <= l < len(self._levels) and old(len(self._levels[l])) <= i and i < len(self._levels[l]), "
+          "len(self._levels[l][i]._history) == 1), pat=self._levels[l][i])", tags="C06"),
        cl("no_flag_written_when_off", "imp(not hibernation_on(self), forall(lambda d: imp(old(allocated(d)), "
           "d._hibernating == old(d._hibernating)), d='ref:AbstractDeme'))", tags="C18"),
+   ])
+
+# ---- stop-condition consultations (ghost record of the last verdict) ---------------------------------------------
+ghost_fields(**{"$gsc_last": "bool", "$gsc_clock": "int", "$steps": "int", "$lsc_last": "bool", "$engine_stop": "bool"})
+macro("gsc_last", ["t"], 'field(t, "$gsc_last", "bool")')       # verdict of the most recent consultation of t's global stop condition
+macro("gsc_clock", ["t"], 'field(t, "$gsc_clock", "int")')      # value of clock() at that consultation
+macro("steps", ["t"], 'field(t, "$steps", "int")')              # ghost: number of run_step calls performed
+macro("lsc_last", ["d"], 'field(d, "$lsc_last", "bool")')
+macro("engine_stop", ["d"], 'field(d, "$engine_stop", "bool")')
+
+from pyvc.spec import CONTRACTS  # noqa: E402
+_g = CONTRACTS["ext.$GSC.__call__"]
+_g.modifies += [("$gsc_last", "o == tree"), ("$gsc_clock", "o == tree")]
+_g.ensures += [
+    cl("recorded", "gsc_last(tree) == result and gsc_clock(tree) == clock()"),
+    # verdict semantics of the two shipped conditions that run() is specified against (each is proved to have it: c40)
+    cl("metaepoch_limit_semantics", "imp(exact_type(self, 'MetaepochLimit'), "
+       "result == (tree.metaepoch_count >= cast(self, 'ref:MetaepochLimit').limit))"),
+    cl("dont_run_semantics", "imp(exact_type(self, 'DontRun'), result)"),
+]
+_l = CONTRACTS["ext.$LSC.__call__"]
+_l.modifies += [("$lsc_last", "o == deme")]
+_l.ensures += [cl("recorded", "lsc_last(deme) == result")]
+
+# ---- one deme, one metaepoch (abstract: every engine refines it) ----------------------------------------------------
+D = "pyhms.demes.abstract_deme.AbstractDeme."
+OWN_FRAME = [("_active", "o == self"), ("_centroid", "o == self"),
+             ("$list<list[list[ref:Individual]]>", "o == self._history"),
+             ("_n_evals", "o == self or o == self._problem"), ("$engine_stop", "o == self"),
+             ("$gsc_last", "o == tree"), ("$gsc_clock", "o == tree"), ("$lsc_last", "o == self"), ("weights", "o == tree._gsc")]
+macro("DemeRunnable", ["t", "d"], """
+    InTree(t, d) and d._active and HistShape(d) and d._problem != None and wowner(d._problem) == d
+    and d._lsc != None and t._gsc != None
+""")
+fn(D + "run_metaepoch", abstract=True, params={"tree": "ref:DemeTree"},
+   requires=[cl("runnable", "DemeRunnable(tree, self)")] + [cl("t_" + c.label, c.text.replace("self", "tree")) for c in struct("self")]
+            + [cl("problems", "LevelProblemsWf(tree)")],
+   modifies=OWN_FRAME + USER_PROBLEM_FRAME,
+   ensures=[cl("one_more_history_entry", "len(self._history) == old(len(self._history)) + 1 and HistShape(self)", tags="C06"),
+            cl("recorded_history_kept", "forall(lambda m: imp(0 <= m < old(len(self._history)), self._history[m] == old(self._history[m])))",
+               tags="C02 C06"),
+            cl("stops_exactly_when", "self._active == (not (gsc_last(tree) or lsc_last(self) or engine_stop(self)))", tags="C06"),
+            cl("count_matches_clock", "counted(self) - old(counted(self)) >= clock() - old(clock()) and clock() >= old(clock())", tags="C03")])
+
+# ---- the tree: one metaepoch -----------------------------------------------------------------------------------------
+macro("Stepped", ["t", "d"], "d._active and not (hibernation_on(t) and d._hibernating)")
+RUNME_FRAME = [("_active", "InTree(self, cast(o, 'ref:AbstractDeme'))"), ("_centroid", "True"),
+               ("$list<list[list[ref:Individual]]>", "kind(o) == 3"), ("_n_evals", "True"), ("$engine_stop", "True"),
+               ("$gsc_last", "o == self"), ("$gsc_clock", "o == self"), ("$lsc_last", "True"), ("weights", "o == self._gsc")] + \
+              [x for x in USER_PROBLEM_FRAME if x[0] != "_n_evals"]
+macro("AllRunnable", ["t"], "t._gsc != None")
+fn(T + "run_metaepoch",
+   requires=struct("self") + [cl("problems", "LevelProblemsWf(self)"), cl("runnable", "AllRunnable(self)")],
+   modifies=RUNME_FRAME,
+   loops={0: dict(index="j", seq_base="ad", invariant=struct("self", prefix="inv_") + [
+       cl("inv_same_lists", "len(self._levels) == old(len(self._levels)) and forall(lambda l: imp(0 <= l < len(self._levels), "
+          "self._levels[l] == old(self._levels[l]) and len(self._levels[l]) == old(len(self._levels[l]))), "
+          "pats=[self._levels[l], old(self._levels[l])])"),
+       cl("inv_same_demes", "forall(lambda l, i: imp(0 <= l < len(self._levels) and 0 <= i < len(self._levels[l]), "
+          "self._levels[l][i] == old(self._levels[l][i])), pats=[self._levels[l][i], old(self._levels[l][i])])"),
+       cl("inv_runnable", "AllRunnable(self) and LevelProblemsWf(self)"),
+       cl("inv_stepped", "forall(lambda q: imp(Done(iter_reversed, len(ad), j, q), "
+          "len(ad[q][1]._history) == old(len(ad[q][1]._history)) + ite(old(Stepped(self, ad[q][1])), 1, 0)), pat=ad[q][1])"),
+       cl("inv_skipped", "forall(lambda q: imp(Done(iter_reversed, len(ad), j, q) and not old(Stepped(self, ad[q][1])), "
+          "counted(ad[q][1]) == old(counted(ad[q][1])) and ad[q][1]._active == old(ad[q][1]._active)), pat=ad[q][1])"),
+       cl("inv_waiting", "forall(lambda q: imp(Todo(iter_reversed, len(ad), j, q), "
+          "len(ad[q][1]._history) == old(len(ad[q][1]._history)) and ad[q][1]._active "
+          "and counted(ad[q][1]) == old(counted(ad[q][1]))), pat=ad[q][1])"),
+       cl("inv_inactive_untouched", "forall(lambda l, i: imp(0 <= l < len(self._levels) and 0 <= i < len(self._levels[l]) "
+          "and not old(self._levels[l][i]._active), len(self._levels[l][i]._history) == old(len(self._levels[l][i]._history)) "
+          "and not self._levels[l][i]._active), pats=[self._levels[l][i], old(self._levels[l][i])])"),
+       cl("inv_flags", "forall(lambda d: imp(old(allocated(d)), d._hibernating == old(d._hibernating)), d='ref:AbstractDeme')"),
+   ])},
+   ensures=struct("self") + [
+       cl("each_runnable_deme_advances_once",
+          "forall(lambda l, i: imp(0 <= l < len(self._levels) and 0 <= i < len(self._levels[l]), "
+          "len(self._levels[l][i]._history) == old(len(self._levels[l][i]._history)) + ite(old(Stepped(self, self._levels[l][i])), 1, 0)), "
+          "pat=self._levels[l][i])", tags="C06 C18"),
+       cl("skipped_demes_do_not_evaluate",
+          "forall(lambda l, i: imp(0 <= l < len(self._levels) and 0 <= i < len(self._levels[l]) "
+          "and old(self._levels[l][i]._active) and not old(Stepped(self, self._levels[l][i])), "
+          "counted(self._levels[l][i]) == old(counted(self._levels[l][i])) and self._levels[l][i]._active), "
+          "pat=self._levels[l][i])", tags="C18 C06"),
+       cl("no_structure_change", "forall(lambda l: imp(0 <= l < len(self._levels), len(self._levels[l]) == old(len(self._levels[l]))), "
+          "pat=self._levels[l])", tags="C06 C07"),
+       cl("stopping_is_final", "forall(lambda l, i: imp(0 <= l < len(self._levels) and 0 <= i < len(self._levels[l]) "
+          "and not old(self._levels[l][i]._active), not self._levels[l][i]._active), pat=self._levels[l][i])", tags="C06"),
+   ])
+
+# ---- run_step / run ----------------------------------------------------------------------------------------------------
+STEP_FRAME = RUNME_FRAME + TREE_LISTS + HIB_FRAME + [("metaepoch_count", "o == self"), ("_logger", "o == self"), ("$steps", "o == self"),
+                                                     ("$list<dict[str,ref:DemeCandidates]>", "kind(o) == 7"), ("$last_seeds", "o == self")]
+RUN_PRE = struct("self") + [cl("problems", "LevelProblemsWf(self)"), cl("runnable", "AllRunnable(self)"),
+                            cl("mechanism", "self._sprout_mechanism != None")]
+fn(T + "run_step",
+   ghost_after={"assign:metaepoch_count@0": ["setg(self, '$steps', steps(self) + 1)"]},
+   requires=RUN_PRE,
+   modifies=STEP_FRAME,
+   ensures=struct("self") + PREFIX + [
+       cl("runnable", "AllRunnable(self) and LevelProblemsWf(self) and self._sprout_mechanism != None"),
+       cl("counts_one_metaepoch", "self.metaepoch_count == old(self.metaepoch_count) + 1 and steps(self) == old(steps(self)) + 1", tags="C05"),
+       cl("no_sprout_once_the_stop_condition_holds", "imp(gsc_last(self), forall(lambda l: imp(0 <= l < len(self._levels), "
+          "len(self._levels[l]) == old(len(self._levels[l]))), pat=self._levels[l]))", tags="C05"),
+       cl("each_runnable_deme_advances_once",
+          "forall(lambda l, i: imp(0 <= l < len(self._levels) and 0 <= i < old(len(self._levels[l])), "
+          "len(self._levels[l][i]._history) == old(len(self._levels[l][i]._history)) + ite(old(Stepped(self, self._levels[l][i])), 1, 0)), "
+          "pat=self._levels[l][i])", tags="C06"),
+       cl("fresh_demes_have_not_run", "forall(lambda l, i: imp(0 <= l < len(self._levels) and old(len(self._levels[l])) <= i "
+          "and i < len(self._levels[l]), len(self._levels[l][i]._history) == 1 and self._levels[l][i]._active "
+          "and not self._levels[l][i]._hibernating), pat=self._levels[l][i])", tags="C06 C18"),
+   ])
+
+fn(T + "run",
+   requires=RUN_PRE + [cl("gsc", "self._gsc != None")],
+   modifies=STEP_FRAME,
+   loops={0: dict(invariant=struct("self", prefix="inv_") + [
+       cl("inv_runnable", "AllRunnable(self) and LevelProblemsWf(self) and self._sprout_mechanism != None and self._gsc != None"),
+       cl("inv_counter_counts_steps", "self.metaepoch_count - old(self.metaepoch_count) == steps(self) - old(steps(self)) "
+          "and steps(self) >= old(steps(self))", tags="C05"),
+       cl("inv_below_limit", "imp(exact_type(self._gsc, 'MetaepochLimit') and "
+          "old(self.metaepoch_count) <= cast(self._gsc, 'ref:MetaepochLimit').limit, "
+          "self.metaepoch_count <= cast(self._gsc, 'ref:MetaepochLimit').limit)", tags="C05"),
+       cl("inv_dont_run_never_steps", "imp(exact_type(self._gsc, 'DontRun'), steps(self) == old(steps(self)))", tags="C05"),
+       cl("inv_levels_grow", "forall(lambda l: imp(0 <= l < len(self._levels), len(self._levels[l]) >= old(len(self._levels[l]))), "
+          "pat=self._levels[l])"),
+   ])},
+   ensures=struct("self") + [
+       cl("stops_when_the_condition_holds", "gsc_last(self) and gsc_clock(self) == clock()", tags="C05"),
+       cl("counter_counts_metaepochs", "self.metaepoch_count - old(self.metaepoch_count) == steps(self) - old(steps(self))", tags="C05"),
+       cl("exactly_n_for_metaepoch_limit", "imp(exact_type(self._gsc, 'MetaepochLimit') and "
+          "old(self.metaepoch_count) <= cast(self._gsc, 'ref:MetaepochLimit').limit, "
+          "self.metaepoch_count == cast(self._gsc, 'ref:MetaepochLimit').limit)", tags="C05"),
+       cl("zero_for_dont_run", "imp(exact_type(self._gsc, 'DontRun'), self.metaepoch_count == old(self.metaepoch_count) "
+          "and steps(self) == old(steps(self)))", tags="C05"),
    ])
